@@ -4,11 +4,13 @@
 import json, os, re, shutil, subprocess, sys
 VERIF = os.path.dirname(os.path.dirname(os.path.abspath(__file__)))
 for prop in sys.argv[1:]:
-    for x in 'ABCDEF':
-        src = '/tmp/mut/%s/%s' % (prop, 'out' if x in 'AB' else ('out2' if x in 'CD' else 'out3'))
+    for x in 'ABCDEFGH':
+        src = '/tmp/mut/%s/%s' % (prop, 'out' if x in 'AB' else ('out2' if x in 'CD' else ('out3' if x in 'EF' else 'out4')))
         if not os.path.exists('%s/patch_%s.diff' % (src, x)):
             continue
         dst = os.path.join(VERIF, 'seeded', '%s-%s' % (prop, x))
+        if os.path.exists(os.path.join(dst, 'patch.diff')):
+            continue        # stored (and possibly re-based) already
         os.makedirs(dst, exist_ok=True)
         shutil.copy('%s/patch_%s.diff' % (src, x), dst + '/patch.diff')
         shutil.copy('%s/demo_%s.py' % (src, x), dst + '/demo.py')
